@@ -149,10 +149,10 @@ Lemma host_success fixed k e h m1 m2 :
     fund (h_wallet h) (ct_hfund (rq_terms r)) false = Some (sel, w') ∧
     ho_host (host_run fixed k e h m1 m2) =
       mk_host (h_key h) w' (c :: h_contracts h)
-        (mk_tset (rq_parents r) (mk_atxn c (pids (rq_inputs r)) (uids sel)) :: h_pool h)
-        (mk_tset (rq_parents r) (mk_atxn c (pids (rq_inputs r)) (uids sel)) :: h_bcast h) ∧
+        (mk_tset (e_tip e) (rq_parents r) (mk_atxn c (pids (rq_inputs r)) (uids sel)) :: h_pool h)
+        (mk_tset (e_tip e) (rq_parents r) (mk_atxn c (pids (rq_inputs r)) (uids sel)) :: h_bcast h) ∧
     sent_final (ho_sent (host_run fixed k e h m1 m2)) =
-      Some (mk_final (S (rq_parents r)) true (mk_atxn c (pids (rq_inputs r)) (uids sel))) ∧
+      Some (mk_final (e_tip e) (S (rq_parents r)) true (mk_atxn c (pids (rq_inputs r)) (uids sel))) ∧
     ho_funded (host_run fixed k e h m1 m2) = sel ∧
     co_terms c = host_terms h r ∧ co_rsig c = rs_csig s ∧ doubly_signed k c ∧
     e_pool_ok e = true.
@@ -163,6 +163,19 @@ Proof.
      split; [reflexivity|]; split; [reflexivity|]; split; [reflexivity|];
      split; [reflexivity|]; split; [reflexivity|]; split;
      [unfold doubly_signed; cbn; repeat split; congruence|reflexivity]).
+Qed.
+
+(** What a committed run returns is exactly what its pool accepted: the set, and the basis
+    that set's proofs were made for (the chain manager's tip, not the funding basis). *)
+Lemma host_success_returns_pooled fixed k e h m1 m2 :
+  ho_ok (host_run fixed k e h m1 m2) = true →
+  ∃ set f, h_pool (ho_host (host_run fixed k e h m1 m2)) = set :: h_pool h ∧
+    sent_final (ho_sent (host_run fixed k e h m1 m2)) = Some f ∧
+    f_basis f = ts_basis set ∧ f_txn f = ts_txn set ∧ f_len f = S (ts_parents set) ∧
+    ts_basis set = e_tip e.
+Proof.
+  intros H. destruct (host_success _ _ _ _ _ _ H) as (r & s & sel & w' & c & _ & _ & _ & Hh & Hf & _).
+  eexists _, _. rewrite Hh, Hf. simpl. repeat split; reflexivity.
 Qed.
 
 (** The final response is only ever sent by a run that committed. *)
@@ -369,7 +382,7 @@ Proof.
   assert (co_terms hc = t) as Hterms by congruence.
   assert (ct_hk t = h_key h) as Hhk by (rewrite <- Hterms, Hct; reflexivity).
   assert (ct_rk t = r_key r) as Hrk by (rewrite <- Hterms at 1; congruence).
-  exists hc, (mk_tset (re_parents re) (mk_atxn hc (pids (map (λ u, (u_id u, u_val u)) sel)) (uids hsel))).
+  exists hc, (mk_tset (e_tip e) (re_parents re) (mk_atxn hc (pids (map (λ u, (u_id u, u_val u)) sel)) (uids hsel))).
   rewrite Hhost, Hr. simpl.
   assert (c = hc) as ->.
   { destruct (is_renewal k) eqn:Hk'.
@@ -406,8 +419,8 @@ Qed.
 Definition w3 : wallet := mk_wallet [mk_utxo 1 100 false; mk_utxo 2 300 false; mk_utxo 3 200 false] ∅.
 Definition h3 : host := mk_host 2 w3 [] [] [].
 Definition t3 : cterms := mk_terms 7 1 2 120 350.
-Definition e_unknown : env := mk_env true true true BUnknown None true true true true.
-Definition e_same : env := mk_env true true true BSame None true true true true.
+Definition e_unknown : env := mk_env true true true BUnknown None true true true true 5 5.
+Definition e_same : env := mk_env true true true BSame None true true true true 5 5.
 Definition rq3 : req := mk_req t3 [(11%N, 150)] 0.
 
 (** F7: with the deferred release reading the truncated transaction, a request with an
@@ -481,7 +494,7 @@ Example ex_success_form :
 Proof. vm_compute. done. Qed.
 
 Example ex_success_renew :
-  let a := attempt true KRenew (mk_env true true true (BBehind true) None true true true true) re_ok all_delivered h3 r3 t3 in
+  let a := attempt true KRenew (mk_env true true true (BBehind true) None true true true true 5 8) re_ok all_delivered h3 r3 t3 in
   ro_ok (ao_renter a) = true ∧ ho_ok (ao_host a) = true ∧
   ho_calls (ao_host a) = [CFund 2; CUpdate true; CTxSet true; CPoolSet true; CRecord; CBroadcast].
 Proof. vm_compute. done. Qed.
@@ -516,3 +529,12 @@ Example ex_attempts_failures :
   let l := repeat (mk_hattempt KRenew e_unknown (Some rq3) None) 50 in
   Forall (λ b, b = false) (snd (host_attempts true h3 l)) ∧ length l = 50%nat.
 Proof. split; [|reflexivity]. vm_compute. repeat constructor. Qed.
+
+(** a run in which the two bases differ (hypothesis of the lemma above with e_fund_basis <> e_tip) *)
+Example ex_returns_tip_basis :
+  let e := mk_env true true true (BHostBehind true) None true true true true 5 8 in
+  let o := host_run true KForm e h3 (Some rq3) (Some (mk_rsigs (Sig 1 (MContract t3)) (SigJunk 0) 1)) in
+  ho_ok o = true ∧ e_fund_basis e ≠ e_tip e ∧
+  match sent_final (ho_sent o) with Some f => f_basis f = 8%N | None => False end.
+Proof. vm_compute. repeat split; discriminate. Qed.
+
